@@ -310,6 +310,8 @@ class Unit:
         seg_off = 0
         if "R-SEGMENT" in rules:
             text, seg_off = splice.segment(text, it["segment"])
+        if "R-CLOSPEC" in rules:
+            text, _n = splice.closure_specs(text, it.get("closure_specs", []))
         if "R-SPAWN" in rules:
             text, hoisted = splice.hoist_spawn(text, it.get("spawn", []))
         if rules:
